@@ -288,10 +288,12 @@ class C11(PropCheck):
                 mgrs.append({"id": n, "kind": "plain", "uw": end, "el": None})
                 out.append({"k": "fill", "obj": 0, "exiting": False, "mgrs": mgrs, "where": "outside"})
                 out.append({"k": "fill", "obj": 0, "exiting": False, "mgrs": mgrs, "where": "exitstack"})
+        for k in (1, 2, 3):
+            out.append({"k": "fill", "obj": 0, "exiting": False, "mgrs": [], "where": "tasks", "ntasks": k})
         return out
 
     def model_line(self, case):
-        if case["where"] == "exitstack":
+        if case["where"] in ("exitstack", "tasks"):
             return None
         return json.dumps({"p": "C11", "obj": case["obj"], "exiting": case["exiting"], "mgrs": case["mgrs"]})
 
@@ -317,6 +319,54 @@ class C11(PropCheck):
             except RuntimeError:
                 pass
             return lab.show(ctx, outcome)
+        if case["where"] == "tasks":
+            # a manager whose elaborate hook lists child tasks the way the Trio glue does (extract_child(task, for_task=True)):
+            # stubs or full stacks according to recurse_child_tasks -- outside any extract as inside a default one
+            class TaskLike:
+                def __init__(s, g):
+                    s.g = g
+
+            def child_gen():
+                yield
+
+            kids = []
+            for _ in range(case.get("ntasks", 2)):
+                g = child_gen()
+                next(g)
+                kids.append(TaskLike(g))
+
+            @ss.unwrap_stackitem.register(TaskLike)
+            def _unwrap_tasklike(t):
+                return t.g
+
+            class Nursery:
+                def __enter__(s):
+                    return s
+
+                def __exit__(s, *a):
+                    return False
+
+            @ss.elaborate_context.register(Nursery)
+            def _elab_nursery(mgr, context):
+                context.children = [ss.extract_child(k, for_task=True) for k in kids]
+
+            n = Nursery()
+            outs = {}
+            ctx_out = ss.Context(obj=n, is_async=False)
+            ss.fill_context(ctx_out)
+            outs["outside"] = [len(ch.frames) for ch in ctx_out.children]
+
+            def holder():
+                with n:
+                    yield
+
+            for name, kw in (("inside_default", {}), ("inside_recurse", {"recurse_child_tasks": True})):
+                h = holder()
+                next(h)
+                st = ss.extract(h, **kw)
+                outs[name] = [len(ch.frames) for ch in st.frames[0].contexts[0].children]
+                h.close()
+            return "tasks " + json.dumps(outs, sort_keys=True)
         if case["where"] == "exitstack":
             # the manager was entered through an ExitStack: its context is a child context built by the contextlib glue, which
             # goes through the same loop
@@ -396,6 +446,14 @@ class C11(PropCheck):
         """The documented loop, read directly from the tables."""
         if not isinstance(real, str):
             return None
+        if case["where"] == "tasks":
+            d = json.loads(real[6:])
+            k = case.get("ntasks", 2)
+            if d["outside"] != d["inside_default"] or d["inside_default"] != [0] * k or d["inside_recurse"] != [1] * k:
+                return (f"child tasks listed by an elaborate hook: frames per child outside any extract {d['outside']}, inside a default "
+                        f"extract {d['inside_default']} (stubs), inside extract(recurse_child_tasks=True) {d['inside_recurse']}: "
+                        f"fill_context outside an extract must give what it gives inside a default one")
+            return None
         tab = {m["id"]: m for m in case["mgrs"]}
         obj, inner, children, desc, hide = case["obj"], "-", [], "-", False
         trace: List[str] = []
@@ -450,7 +508,7 @@ class C11(PropCheck):
         return None
 
     def stats(self, cases, reals):
-        d = {"outside": 0, "inside": 0, "frame": 0, "exitstack": 0, "exiting": 0, "guard": 0, "prune": 0, "raised": 0, "with_gcm": 0, "replaced": 0}
+        d = {"outside": 0, "inside": 0, "frame": 0, "exitstack": 0, "tasks": 0, "exiting": 0, "guard": 0, "prune": 0, "raised": 0, "with_gcm": 0, "replaced": 0}
         for c, r in zip(cases, reals):
             d[c["where"]] += 1
             d["exiting"] += c["exiting"]
